@@ -92,6 +92,30 @@ def lkscan (f : List String) : String :=
         (lockRefStoreKey (bool! u) (combineKeys [[9], hex! b, lkDurationKey (int! d')]) (nat! id))
   | _ => "bad-op"
 
+/-- dnkey <family> <component hex>: through the generated translations of the x/dymns key builders -/
+def dnkey (fam : String) (c : Bytes) : Bytes :=
+  match fam with
+  | "0" => Gen.Keys.dymNameKey c
+  | "1" => Gen.Keys.dymNamesOwnedByAccountRvlKey c
+  | "2" => Gen.Keys.configuredAddressToDymNamesIncludeRvlKey c
+  | "3" => Gen.Keys.fallbackAddressToDymNamesIncludeRvlKey c
+  | "4" => Gen.Keys.sellOrderKey c .name
+  | "5" => Gen.Keys.sellOrderKey c .alias
+  | "6" => Gen.Keys.keyCountBuyOrders
+  | "7" => Gen.Keys.buyOrderKey c
+  | "8" => Gen.Keys.buyerToOrderIdsRvlKey c
+  | "9" => Gen.Keys.dymNameToBuyOrderIdsRvlKey c
+  | "10" => Gen.Keys.aliasToBuyOrderIdsRvlKey c
+  | "11" => Gen.Keys.rollAppIdToAliasesKey c
+  | _ => Gen.Keys.aliasToRollAppIdRvlKey c
+
+def dnKeyOf (fam : String) (c : Bytes) : DymnsKey :=
+  match fam with
+  | "0" => .dymName c | "1" => .ownedBy c | "2" => .cfgAddr c | "3" => .fallback c
+  | "4" => .sellOrder c .name | "5" => .sellOrder c .alias | "6" => .countBuyOrders | "7" => .buyOrder c
+  | "8" => .buyer c | "9" => .nameToBuyOrders c | "10" => .aliasToBuyOrders c | "11" => .rollappToAliases c
+  | _ => .aliasToRollapp c
+
 def optHex (o : Option Bytes) : String := match o with | none => "nil" | some b => toHexD b
 
 def cmp (a b : Bytes) : String :=
@@ -181,6 +205,12 @@ def step (_ : Unit) (f : List String) : Unit × String :=
         let ks := if bool! u then lockRefKeys l else durationLockRefKeys l
         ",".intercalate (ks.map fun k => toHexD (lockRefStoreKey (bool! u) k (nat! id)))
   | "lkscan" :: rest => lkscan rest
+  | ["dnkey", fam, c] => toHexD (dnkey fam (hex! c))
+  | ["dncmp", fa, ca, fb, cb] =>
+      -- equality of two keys, and whether a whole-family scan with a's family prefix returns b's key
+      let a := dnKeyOf fa (hex! ca)
+      let b := dnKeyOf fb (hex! cb)
+      s!"{decide (a.bytes = b.bytes)} {isPrefix a.familyPrefix b.bytes}"
   | _ => "bad-op")
 
 def drv : Drv := { σ := Unit, init := (), step := step }
